@@ -139,7 +139,7 @@ func run(c Case) (res ev.Result) {
 		return
 	}
 	var bpmBack float64
-	if !tr[0].Message.GetMetaTempo(&bpmBack) || math.Abs(6e7/bpmBack-6e7/c.BPM) >= 1 {
+	if !tr[0].Message.GetMetaTempo(&bpmBack) || math.Abs(6e7/bpmBack-6e7/c.BPM) > 1+1e-6 {
 		res.Violation = fmt.Sprintf("initial tempo event encodes %v BPM, recording tempo is %v", bpmBack, c.BPM)
 		return
 	}
